@@ -13,7 +13,7 @@ from pv import core
 from pv.core import Res, Sub
 
 
-def _seed_corpus(d, seed):
+def _seed_corpus(d, seed, prop="C01"):
     """a few small valid inputs: frames recorded in the repository's test logs + generated messages"""
     import hypothesis
     from hypothesis import given, settings
@@ -21,6 +21,11 @@ def _seed_corpus(d, seed):
     from pv import framing, gen
 
     n = 0
+    if prop == "C12":
+        for k, body in enumerate((b"\x00\x00\x00\x05hello", b"\x80\x01\x00\x00\x03\x03abc\x02de", b"\x02\x02\x00\x00\x04\x00\x09\x0bhello world\x03abc", b"\x83\x00\x01\x04\r\n0\r\x02\r\n")):
+            open(os.path.join(d, f"c12-{k}"), "wb").write(body)
+        return 4
+    raw_only = prop == "C06"
     logs = sorted(glob.glob(os.path.join(core.REPO, "tests", "*.log")))
     for path in logs:
         data = open(path, "rb").read()
@@ -32,7 +37,9 @@ def _seed_corpus(d, seed):
                 fr = data[i : i + size + 6]
                 if len(fr) == size + 6 and framing.frame_problem(fr) is None:
                     for sel, body in ((0, fr[3:-3]), (5, fr), (2, b"\x00" + fr)):
-                        open(os.path.join(d, f"log{n:04d}"), "wb").write(bytes([sel]) + body)
+                        if raw_only and sel != 0:
+                            continue
+                        open(os.path.join(d, f"log{n:04d}"), "wb").write((b"" if raw_only else bytes([sel])) + body)
                         n += 1
                     taken += 1
                     i += len(fr)
@@ -48,10 +55,11 @@ def _seed_corpus(d, seed):
 
     collect()
     for p in out:
-        open(os.path.join(d, f"gen{n:04d}"), "wb").write(b"\x00" + p)
+        open(os.path.join(d, f"gen{n:04d}"), "wb").write((b"" if raw_only else b"\x00") + p)
         n += 1
-        open(os.path.join(d, f"gen{n:04d}"), "wb").write(b"\x02\x00" + framing.build_frame(p))
-        n += 1
+        if not raw_only:
+            open(os.path.join(d, f"gen{n:04d}"), "wb").write(b"\x02\x00" + framing.build_frame(p))
+            n += 1
     return n
 
 
@@ -73,7 +81,7 @@ def make(prop, which, runs=(20000, 400000), shards=(4, 16)):
         try:
             kind = "seeded" if shard % 2 else "empty"
             if kind == "seeded":
-                _seed_corpus(corpus, seed)
+                _seed_corpus(corpus, seed, prop)
             n = runs[0] if tier == "quick" else runs[1]
             n = max(100, int(n * float(os.environ.get("PV_SCALE", "1"))))
             cmd = [sys.executable, "-m", "pv.fuzz.target", corpus, f"-runs={n}", f"-seed={seed}", f"-artifact_prefix={work}/", "-max_len=1200", "-print_final_stats=1", "-timeout=60"]
@@ -97,7 +105,7 @@ def make(prop, which, runs=(20000, 400000), shards=(4, 16)):
             c = case["campaign"]
             return Res(False, [f"campaign-{c['corpus']}"], evals=c["execs"])
         r = check_bytes(bytes.fromhex(case["input"]), which)
-        return Res(nontrivial=r not in ("empty", "stream-empty", "stream-delivered0"), classes=[r])
+        return Res(nontrivial=r not in ("empty", "stream-empty", "stream-delivered0", "undefined", "short"), classes=[r])
 
     return Sub(
         "atheris_campaign",
